@@ -228,6 +228,9 @@ class Score(Case):
         return res[:res0] + [(l, IMP(c)) for l, c in res[res0:]]
 
 
+COUNT_MAX = 10 ** 6     # counts per cell of the 2x2 table
+
+
 class Binary(Case):
     """every binary score equals its contingency-table definition for all positive counts"""
     prop = 'C04'
@@ -243,7 +246,7 @@ class Binary(Case):
         cnt = {}
         for k in ('TN', 'FP', 'FN', 'TP'):
             v = SR(z3.Real(k))
-            assume(z3.And(v.e >= 1, v.e <= 10000, z3.IsInt(v.e)))
+            assume(z3.And(v.e >= 1, v.e <= COUNT_MAX, z3.IsInt(v.e)))
             cnt[k] = v
         return cnt
 
